@@ -29,11 +29,18 @@ Proof. unfold remove_key. rewrite filter_In. intros [A B]. split; auto. apply ne
 Lemma purge_In l now e : In e (purge l now) -> In e l.
 Proof. unfold purge. rewrite filter_In. tauto. Qed.
 
+Lemma after_callback_In c l p state now e : In e (after_callback c l p state now) -> In e l.
+Proof.
+  unfold after_callback. destruct c; [|auto]. intros H. apply purge_In in H.
+  destruct state; [unfold remove_key in H; apply filter_In in H; tauto | exact H].
+Qed.
+
 Section P.
 Variable clears_old : bool.
 Variable expires_in : Z.
-Notation cstep m := (ClientState.cstep m clears_old expires_in).
-Notation crun_from m := (ClientState.crun_from m clears_old expires_in).
+Variable oauth1_prov : string -> bool.
+Notation cstep m := (ClientState.cstep m clears_old expires_in oauth1_prov).
+Notation crun_from m := (ClientState.crun_from m clears_old expires_in oauth1_prov).
 
 Definition stored (s : cst) (e : entry) : Prop :=
   In e (c_cache s) \/ exists i l, nth_error (c_sessions s) i = Some l /\ In e l.
@@ -64,8 +71,8 @@ Proof.
     + destruct (nth_error (c_sessions s) sess) as [l0|] eqn:N; cbn [fst]; [|auto].
       intros [H|[i [l [H1 H2]]]]; [left; left; exact H|].
       cbn [c_sessions] in H1. rewrite nth_error_upd_nth in H1. destruct (Nat.eqb_spec sess i) as [->|NE].
-      * rewrite N in H1. cbn in H1. injection H1 as <-. apply purge_In in H2.
-        left. right. exists i, l0. split; auto. destruct state; [apply remove_key_In in H2; tauto|exact H2].
+      * rewrite N in H1. cbn in H1. injection H1 as <-. apply after_callback_In in H2.
+        left. right. exists i, l0. split; auto.
       * left. right. eauto.
     + cbn [fst]. intros [H|H]; left; [left|right; exact H].
       cbn [c_cache] in H. destruct state; [apply remove_key_In in H; tauto|exact H].
@@ -138,12 +145,12 @@ Proof.
       constructor; cbn [c_log c_next c_sessions c_cache]; try apply I; try exact M.
       * intros x [H|[i [l [H1 H2]]]]; apply (v_stored _ s I); [left; exact H|].
         cbn [c_sessions] in H1; rewrite nth_error_upd_nth in H1. destruct (Nat.eqb_spec sess i) as [->|NE].
-        { rewrite N in H1. cbn in H1. injection H1 as <-. apply purge_In in H2.
-          right. exists i, l0. split; auto. destruct state; [apply remove_key_In in H2; tauto|exact H2]. }
+        { rewrite N in H1. cbn in H1. injection H1 as <-. apply after_callback_In in H2.
+          right. exists i, l0. split; auto. }
         { right. eauto. }
       * intros i l x H1 H2. cbn [c_sessions] in H1; rewrite nth_error_upd_nth in H1. destruct (Nat.eqb_spec sess i) as [->|NE].
-        { rewrite N in H1. cbn in H1. injection H1 as <-. apply purge_In in H2.
-          apply (v_sess _ s I i l0); auto. destruct state; [apply remove_key_In in H2; tauto|exact H2]. }
+        { rewrite N in H1. cbn in H1. injection H1 as <-. apply after_callback_In in H2.
+          apply (v_sess _ s I i l0); auto. }
         { eapply (v_sess _ s I); eauto. }
     + cbn [fst]. constructor; cbn [c_log c_next c_sessions c_cache]; try apply I; try exact M.
       * intros x [H|H]; apply (v_stored _ s I); [left|right; exact H].
@@ -196,6 +203,7 @@ Proof.
       * pose proof (v_sess _ _ I' i l e0 H1 H2) as SI. pose proof (v_sess _ s I sess l0 e0 N In0) as SS.
         assert (i = sess) by congruence. subst i.
         cbn [c_sessions] in H1. rewrite nth_error_upd_nth in H1. rewrite ?SS in H1. rewrite Nat.eqb_refl, N in H1. cbn in H1. injection H1 as <-.
+        rewrite orb_true_r in H2. unfold after_callback in H2.
         apply purge_In in H2. apply remove_key_In in H2. destruct H2 as [_ K].
         unfold same_key in K. rewrite P, S, String.eqb_refl, Nat.eqb_refl in K. discriminate.
   - destruct state as [st|]; [|discriminate].
